@@ -13,14 +13,28 @@
 package main
 
 import (
+	"bytes"
 	"encoding/hex"
 	"fmt"
-	"io"
 	"os"
+	"os/exec"
 	"sort"
 	"strings"
 	"sync"
 
+	"github.com/arnodel/golua/lib"
+	"github.com/arnodel/golua/lib/base"
+	"github.com/arnodel/golua/lib/coroutine"
+	"github.com/arnodel/golua/lib/debuglib"
+	"github.com/arnodel/golua/lib/golib"
+	"github.com/arnodel/golua/lib/iolib"
+	"github.com/arnodel/golua/lib/mathlib"
+	"github.com/arnodel/golua/lib/oslib"
+	"github.com/arnodel/golua/lib/packagelib"
+	"github.com/arnodel/golua/lib/runtimelib"
+	"github.com/arnodel/golua/lib/stringlib"
+	"github.com/arnodel/golua/lib/tablelib"
+	"github.com/arnodel/golua/lib/utf8lib"
 	rt "github.com/arnodel/golua/runtime"
 	"verifharness/hlib"
 )
@@ -56,6 +70,12 @@ var fragments = []fragment{
 	{"io", "io", true, []string{`io.write("")`, `return io.type(io.stdout)`, `return io.output() == io.stdout`, `return io.type(io.output())`}},
 	{"iodefault", "io", true, []string{`io.output(io.stderr)`, `return io.output() == io.stderr`, `return io.output() == io.stdout`, `io.output(io.stdout) return io.output() == io.stdout`}},
 	{"warn", "warn", true, []string{`warn("@off")`, `return 1`, `warn("@on")`, `return 2`}},
+	// what a runtime can see of the way it was created, and what it sends to ITS stdout and warner
+	{"ctxprobe", "options", false, []string{`return runtime and runtime.context().flags`, `local k = runtime and runtime.context().kill; return k and k.cpu, k and k.memory, k and k.millis`,
+		`return runtime and runtime.context().status`, `return type(math), type(io), type(utf8), type(debug)`}},
+	{"output", "output", true, []string{`print("hello", 1)`, `warn("@on") warn("careful") return 1`, `print(("x"):rep(3))`, `warn("again") return 2`}},
+	{"heavy", "options", false, []string{`local s = 0 for i = 1, 20000 do s = s + i end return s`, `local t = {} for i = 1, 2000 do t[i] = tostring(i) end return #t`,
+		`return #string.rep("ab", 5000)`, `local n = 0 for w in string.gmatch(string.rep("a ", 500), "%a") do n = n + 1 end return n`}},
 }
 
 func fragByName(n string) *fragment {
@@ -70,6 +90,98 @@ func fragByName(n string) *fragment {
 type prog struct {
 	id    string
 	frags []*fragment
+	cfg   string // how its runtime is created ("" = default)
+}
+
+func (p prog) cfgName() string {
+	if p.cfg == "" {
+		return "default"
+	}
+	return p.cfg
+}
+
+func (p prog) with(cfg string) prog { return prog{p.id, p.frags, cfg} }
+
+func progFromID(id, cfg string) (prog, bool) {
+	var fs []*fragment
+	for _, n := range strings.Split(id, "+") {
+		f := fragByName(n)
+		if f == nil {
+			return prog{}, false
+		}
+		fs = append(fs, f)
+	}
+	return prog{id, fs, cfg}, true
+}
+
+// ---------------------------------------------------------------------------
+// configurations: different ways a host creates a runtime (options, warner, which libraries, in which order)
+
+var allLoaders = []packagelib.Loader{base.LibLoader, packagelib.LibLoader, coroutine.LibLoader, stringlib.LibLoader, tablelib.LibLoader,
+	mathlib.LibLoader, iolib.LibLoader, utf8lib.LibLoader, oslib.LibLoader, debuglib.LibLoader, golib.LibLoader, runtimelib.LibLoader}
+
+const configProbe = "ctxprobe+output+heavy+strmetaread+globalsread+pkgread+iter"
+
+var configModes = map[string]func(a, b prog) ([]string, []string){
+	"created-AB":        func(a, b prog) ([]string, []string) { return interleaved(a, b, func(i int) bool { return i%2 == 0 }) },
+	"created-BA":        func(a, b prog) ([]string, []string) { return interleavedBFirst(a, b, func(i int) bool { return i%2 == 0 }) },
+	"A-closed-before-B": sequential,
+	"concurrent":        concurrent,
+}
+
+var configNames = []string{"default", "quota", "flags", "pool", "warner", "subset", "reorder"}
+
+type runtimeHandle struct {
+	r       *rt.Runtime
+	cleanup func()
+	out     *bytes.Buffer
+	warn    *bytes.Buffer
+}
+
+func makeRuntime(cfg string) *runtimeHandle {
+	h := &runtimeHandle{out: &bytes.Buffer{}, warn: &bytes.Buffer{}}
+	switch cfg {
+	case "", "default":
+		h.r = rt.New(h.out)
+		h.cleanup = lib.LoadAll(h.r)
+	case "quota":
+		h.r = rt.New(h.out, rt.WithRuntimeContext(rt.RuntimeContextDef{HardLimits: rt.RuntimeResources{Cpu: 3000000, Memory: 30000000}}))
+		h.cleanup = lib.LoadAll(h.r)
+	case "flags":
+		h.r = rt.New(h.out, rt.WithRuntimeContext(rt.RuntimeContextDef{RequiredFlags: rt.ComplyIoSafe | rt.ComplyCpuSafe}))
+		h.cleanup = lib.LoadAll(h.r)
+	case "pool":
+		h.r = rt.New(h.out, rt.WithRegPoolSize(16), rt.WithRegSetMaxAge(4))
+		h.cleanup = lib.LoadAll(h.r)
+	case "warner":
+		h.r = rt.New(h.out)
+		h.r.SetWarner(rt.NewLogWarner(h.warn, "W: "))
+		h.cleanup = lib.LoadAll(h.r)
+	case "subset":
+		h.r = rt.New(h.out)
+		h.r.SetWarner(rt.NewLogWarner(h.warn, "S: "))
+		h.cleanup = lib.LoadLibs(h.r, base.LibLoader, packagelib.LibLoader, stringlib.LibLoader, tablelib.LibLoader, runtimelib.LibLoader)
+	case "reorder":
+		h.r = rt.New(h.out)
+		h.r.SetWarner(rt.NewLogWarner(h.warn, "R: "))
+		ls := []packagelib.Loader{base.LibLoader, packagelib.LibLoader}
+		for i := len(allLoaders) - 1; i >= 2; i-- {
+			ls = append(ls, allLoaders[i])
+		}
+		h.cleanup = lib.LoadLibs(h.r, ls...)
+	default:
+		fmt.Fprintln(os.Stderr, "unknown configuration", cfg)
+		os.Exit(2)
+	}
+	return h
+}
+
+func (h *runtimeHandle) close() {
+	defer func() { recover() }()
+	if h.cleanup != nil {
+		h.cleanup()
+	}
+	h.r.Close(nil)
 }
 
 func (p prog) stmts() []string {
@@ -81,6 +193,7 @@ func (p prog) stmts() []string {
 }
 
 type runner struct {
+	h     *runtimeHandle
 	r     *rt.Runtime
 	stmts []string
 	pc    int
@@ -88,8 +201,8 @@ type runner struct {
 }
 
 func newRunner(p prog) *runner {
-	r, _ := hlib.NewRuntime(io.Discard)
-	return &runner{r: r, stmts: p.stmts()}
+	h := makeRuntime(p.cfg)
+	return &runner{h: h, r: h.r, stmts: p.stmts()}
 }
 
 func (x *runner) done() bool { return x.pc >= len(x.stmts) }
@@ -106,6 +219,15 @@ func (x *runner) step() {
 	parts := []string{class}
 	for _, v := range res {
 		parts = append(parts, hlib.Enc(v))
+	}
+	// what the statement sent to this runtime's stdout and warner
+	if x.h.out.Len() > 0 {
+		parts = append(parts, "out:"+hex.EncodeToString(x.h.out.Bytes()))
+		x.h.out.Reset()
+	}
+	if x.h.warn.Len() > 0 {
+		parts = append(parts, "warn:"+hex.EncodeToString(x.h.warn.Bytes()))
+		x.h.warn.Reset()
 	}
 	x.trace = append(x.trace, strings.Join(parts, ","))
 }
@@ -126,20 +248,105 @@ type soloResult struct {
 var soloCache = map[string]soloResult{}
 var soloMu sync.Mutex
 
-// mask: positions whose solo result is not reproducible
+// The solo run of a program is taken in a FRESH PROCESS (this binary, mode `solo`): whatever earlier runtimes of
+// the harness left behind in the process cannot leak into the baseline.  The child runs the program twice; the
+// first trace is the baseline, positions where the two differ are masked (not reproducible on their own).
 func soloStable(p prog) (trace []string, stable []bool) {
+	key := p.cfgName() + "/" + p.id
 	soloMu.Lock()
-	defer soloMu.Unlock()
-	if r, ok := soloCache[p.id]; ok {
-		return r.trace, r.stable
+	r, ok := soloCache[key]
+	soloMu.Unlock()
+	if !ok {
+		prefillSolos(p.cfgName(), []string{p.id})
+		soloMu.Lock()
+		r = soloCache[key]
+		soloMu.Unlock()
 	}
-	t1, t2, t3 := solo(p), solo(p), solo(p)
-	stable = make([]bool, len(t1))
-	for i := range t1 {
-		stable[i] = t1[i] == t2[i] && t2[i] == t3[i]
+	return r.trace, r.stable
+}
+
+// prefillSolos gets the solo traces of several programs of one configuration, EACH FROM ITS OWN clean child
+// process (a program's baseline must not see what another program left behind in the process: a shared cache or
+// metatable polluted by an earlier program would make the baseline agree with the polluted runs).  The children
+// run in parallel.
+func prefillSolos(cfg string, ids []string) {
+	var need []string
+	seen := map[string]bool{}
+	soloMu.Lock()
+	for _, id := range ids {
+		if _, ok := soloCache[cfg+"/"+id]; !ok && !seen[id] {
+			seen[id] = true
+			need = append(need, id)
+		}
 	}
-	soloCache[p.id] = soloResult{t1, stable}
-	return t1, stable
+	soloMu.Unlock()
+	if len(need) == 0 {
+		return
+	}
+	exe, err := os.Executable()
+	if err != nil {
+		fmt.Fprintln(os.Stderr, "c20:", err)
+		os.Exit(2)
+	}
+	sem := make(chan bool, 8)
+	var wg sync.WaitGroup
+	for _, id := range need {
+		id := id
+		wg.Add(1)
+		sem <- true
+		go func() {
+			defer wg.Done()
+			defer func() { <-sem }()
+			cmd := exec.Command(exe, "solos", cfg, id)
+			cmd.Env = append(os.Environ(), "GORACE=halt_on_error=0 exitcode=0", "GOMAXPROCS=2")
+			out, err := cmd.Output()
+			if err != nil {
+				fmt.Fprintln(os.Stderr, "c20: solo child failed:", err, cfg, id)
+				os.Exit(2)
+			}
+			var a, b []string
+			for _, l := range strings.Split(string(out), "\n") {
+				f := strings.SplitN(l, " ", 3)
+				if len(f) < 3 {
+					continue
+				}
+				if f[0] == "t1" {
+					a = append(a, f[2])
+				} else if f[0] == "t2" {
+					b = append(b, f[2])
+				}
+			}
+			stable := make([]bool, len(a))
+			for i := range a {
+				stable[i] = i < len(b) && a[i] == b[i]
+			}
+			soloMu.Lock()
+			soloCache[cfg+"/"+id] = soloResult{a, stable}
+			soloMu.Unlock()
+		}()
+	}
+	wg.Wait()
+}
+
+// sequential: A's runtime is created, used and closed before B's runtime even exists
+func sequential(a, b prog) (ta, tb []string) {
+	xa := newRunner(a)
+	for !xa.done() {
+		xa.step()
+	}
+	xa.h.close()
+	xb := newRunner(b)
+	for !xb.done() {
+		xb.step()
+	}
+	xb.h.close()
+	return xa.trace, xb.trace
+}
+
+// interleavedBFirst: like interleaved, but B's runtime is created before A's
+func interleavedBFirst(a, b prog, sched func(i int) bool) (ta, tb []string) {
+	tb, ta = interleaved(b, a, func(i int) bool { return !sched(i) })
+	return
 }
 
 func interleaved(a, b prog, sched func(i int) bool) (ta, tb []string) {
@@ -233,6 +440,52 @@ func checkPair(a, b prog, run func(a, b prog) ([]string, []string)) (diff bool, 
 	return false, "", 0, "", ""
 }
 
+// pairRuns: the fixed ways of running a pair that minimise tries
+func pairRuns() []func(a, b prog) ([]string, []string) {
+	runs := []func(a, b prog) ([]string, []string){sequential}
+	for _, s := range schedules(hlib.NewRng(1), 0) {
+		s := s
+		runs = append(runs, func(a, b prog) ([]string, []string) { return interleaved(a, b, s.f) })
+	}
+	for k := 1; k <= 4; k++ {
+		k := k
+		runs = append(runs,
+			func(a, b prog) ([]string, []string) {
+				return interleaved(a, b, func(i int) bool { return i < k || (i-k)%2 == 1 })
+			},
+			func(a, b prog) ([]string, []string) {
+				return interleaved(a, b, func(i int) bool { return !(i < k || (i-k)%2 == 1) })
+			})
+	}
+	return runs
+}
+
+// reproducesInCleanProcess: does the pair of fragments show a difference when nothing else ever ran in the process?
+func reproducesInCleanProcess(fa, fb *fragment) bool {
+	exe, _ := os.Executable()
+	cmd := exec.Command(exe, "paircase", fa.name, fb.name)
+	cmd.Env = append(os.Environ(), "GORACE=halt_on_error=0 exitcode=0")
+	out, err := cmd.Output()
+	if err != nil {
+		return true
+	}
+	got := map[string][]string{}
+	for _, l := range strings.Split(string(out), "\n") {
+		f := strings.SplitN(l, " ", 4)
+		if len(f) == 4 {
+			got[f[0]+f[1]] = append(got[f[0]+f[1]], f[3])
+		}
+	}
+	sa, stA := soloStable(prog{fa.name, []*fragment{fa}, ""})
+	sb, stB := soloStable(prog{fb.name, []*fragment{fb}, ""})
+	for k := range pairRuns() {
+		if firstDiff(sa, stA, got["ta"+fmt.Sprint(k)]) >= 0 || firstDiff(sb, stB, got["tb"+fmt.Sprint(k)]) >= 0 {
+			return true
+		}
+	}
+	return false
+}
+
 type minResult struct {
 	diff  bool
 	key   string
@@ -246,7 +499,7 @@ type minResult struct {
 var minCache = map[string]minResult{}
 
 func minimise(a, b prog, run func(a, b prog) ([]string, []string)) (string, string, int, string, string) {
-	runs := []func(a, b prog) ([]string, []string){run}
+	runs := []func(a, b prog) ([]string, []string){run, sequential}
 	for _, s := range schedules(hlib.NewRng(1), 0) {
 		s := s
 		runs = append(runs, func(a, b prog) ([]string, []string) { return interleaved(a, b, s.f) })
@@ -265,13 +518,16 @@ func minimise(a, b prog, run func(a, b prog) ([]string, []string)) (string, stri
 	for _, fa := range a.frags {
 		for _, fb := range b.frags {
 			ck := fa.name + "|" + fb.name
+			if a.cfg != "" || b.cfg != "" {
+				ck = a.cfgName() + "/" + fa.name + "|" + b.cfgName() + "/" + fb.name
+			}
 			if r, ok := minCache[ck]; ok {
 				if r.diff {
 					return r.key, r.which, r.idx, r.want, r.got
 				}
 				continue
 			}
-			pa, pb := prog{fa.name, []*fragment{fa}}, prog{fb.name, []*fragment{fb}}
+			pa, pb := prog{fa.name, []*fragment{fa}, a.cfg}, prog{fb.name, []*fragment{fb}, b.cfg}
 			found := false
 			for _, r := range runs {
 				if d, w, i, want, got := checkPair(pa, pb, r); d {
@@ -279,7 +535,18 @@ func minimise(a, b prog, run func(a, b prog) ([]string, []string)) (string, stri
 					if fb.class != fa.class {
 						cls += "," + fb.class
 					}
-					minCache[ck] = minResult{true, cls + ":" + ck, w, i, want, got}
+					key := cls + ":" + ck
+					if a.cfg == "" && b.cfg == "" && !reproducesInCleanProcess(fa, fb) {
+						// the two fragments do not disturb each other in a clean process: what changed the trace is
+						// something an EARLIER runtime of this process left behind
+						victim := fb
+						if w == "A" {
+							victim = fa
+						}
+						key = "leftover:" + victim.name
+					}
+					minCache[ck] = minResult{true, key, w, i, want, got}
+					_ = r
 					found = true
 					break
 				}
@@ -308,14 +575,27 @@ func minimise(a, b prog, run func(a, b prog) ([]string, []string)) (string, stri
 	return "unminimised:" + strings.Join(cs, "+") + ":" + a.id + "|" + b.id, "?", -1, "", ""
 }
 
+func prefillAll(ps []prog) {
+	var ids []string
+	for i := range fragments {
+		ids = append(ids, fragments[i].name)
+	}
+	for _, p := range ps {
+		ids = append(ids, p.id)
+	}
+	prefillSolos("default", ids)
+}
+
 func programs(tier string, rng *hlib.Rng) []prog {
 	var ps []prog
 	for i := range fragments {
-		ps = append(ps, prog{fragments[i].name, []*fragment{&fragments[i]}})
+		ps = append(ps, prog{fragments[i].name, []*fragment{&fragments[i]}, ""})
 	}
-	n := 6
+	n := 3
 	if tier == "thorough" {
 		n = 30
+	} else if tier == "race" {
+		n = 6
 	}
 	for k := 0; k < n; k++ {
 		m := 2 + rng.Below(3)
@@ -326,7 +606,7 @@ func programs(tier string, rng *hlib.Rng) []prog {
 			fs = append(fs, f)
 			names = append(names, f.name)
 		}
-		ps = append(ps, prog{strings.Join(names, "+"), fs})
+		ps = append(ps, prog{strings.Join(names, "+"), fs, ""})
 	}
 	return ps
 }
@@ -359,6 +639,7 @@ func main() {
 	case "pairs":
 		tier := os.Args[2]
 		ps := programs(tier, rng)
+		prefillAll(ps)
 		nr := 1
 		if tier == "thorough" {
 			nr = 4
@@ -389,6 +670,7 @@ func main() {
 	case "concurrent":
 		tier := os.Args[2]
 		ps := programs(tier, rng)
+		prefillAll(ps)
 		reps := 2
 		if tier == "thorough" {
 			reps = 4
@@ -419,17 +701,173 @@ func main() {
 				}
 			}
 		}
+	case "solos":
+		// child mode: several programs of one configuration in a clean process; every program twice
+		cfg := os.Args[2]
+		if cfg == "default" {
+			cfg = ""
+		}
+		var ps []prog
+		for _, id := range strings.Split(os.Args[3], ",") {
+			p, ok := progFromID(id, cfg)
+			if !ok {
+				fmt.Fprintln(os.Stderr, "unknown program", id)
+				os.Exit(2)
+			}
+			ps = append(ps, p)
+		}
+		for _, p := range ps {
+			for _, l := range solo(p) {
+				hlib.Emit("t1", p.id, l)
+			}
+		}
+		for _, p := range ps {
+			for _, l := range solo(p) {
+				hlib.Emit("t2", p.id, l)
+			}
+		}
+	case "paircase":
+		// child of minimise: one pair of (default-configuration) programs in a clean process, a few schedules
+		a, _ := progFromID(os.Args[2], "")
+		b, _ := progFromID(os.Args[3], "")
+		for k, run := range pairRuns() {
+			ta, tb := run(a, b)
+			for i, l := range ta {
+				hlib.Emit("ta", fmt.Sprint(k), fmt.Sprint(i), l)
+			}
+			for i, l := range tb {
+				hlib.Emit("tb", fmt.Sprint(k), fmt.Sprint(i), l)
+			}
+		}
+	case "cfgcase":
+		// child of `config`: one ordered pair of configurations and one mode in a clean process; raw traces out
+		ca, cb, mname := os.Args[2], os.Args[3], os.Args[4]
+		probe, _ := progFromID(configProbe, cb)
+		for _, w := range strings.Split(os.Args[5], ",") {
+			a, _ := progFromID(w, ca)
+			b := probe
+			if a.cfg == "default" {
+				a.cfg = ""
+			}
+			if b.cfg == "default" {
+				b.cfg = ""
+			}
+			ta, tb := configModes[mname](a, b)
+			for i, l := range ta {
+				hlib.Emit("ta", w, fmt.Sprint(i), l)
+			}
+			for i, l := range tb {
+				hlib.Emit("tb", w, fmt.Sprint(i), l)
+			}
+		}
+	case "config":
+		// runtimes created in DIFFERENT ways (options, warner, libraries loaded and their order): a writer program
+		// in runtime A, a probing program in runtime B.  Every ordered pair of configurations x mode runs in its own
+		// clean child process (so that what one pair leaves behind in the process is not blamed on the next), and
+		// each trace is compared with the solo run of the same program in the same configuration.
+		tier := os.Args[2]
+		writers := []string{"quota", "strmeta", "globals", "pkg", "iodefault", "output", "heavy+flagsctx"}
+		mnames := []string{"created-AB", "A-closed-before-B"}
+		if tier == "thorough" {
+			writers = append(writers, "randseed", "gcstop", "coro", "fail", "warn", "io", "ctxprobe")
+			mnames = append(mnames, "created-BA", "concurrent")
+		} else if tier == "race" {
+			mnames = []string{"concurrent"}
+		}
+		exe, _ := os.Executable()
+		for _, c := range configNames {
+			prefillSolos(c, append([]string{configProbe}, writers...))
+		}
+		for _, ca := range configNames {
+			for _, cb := range configNames {
+				// quick: every configuration against the default one (both orders), the default against itself and
+				// the two option-carrying ones against each other; thorough: every ordered pair
+				if tier != "thorough" && !(ca == "default" || cb == "default" || (ca == "quota" && cb == "flags") || (ca == "flags" && cb == "quota")) {
+					continue
+				}
+				for _, mname := range mnames {
+					cmd := exec.Command(exe, "cfgcase", ca, cb, mname, strings.Join(writers, ","))
+					cmd.Env = append(os.Environ(), "GORACE=halt_on_error=0 exitcode=0")
+					cmd.Stderr = os.Stderr
+					out, err := cmd.Output()
+					if err != nil {
+						hlib.Emit("cpair", ca+"/*", cb+"/"+configProbe, mname, "crash", "1")
+						hlib.Emit("witness", "cfg:crash:"+ca+"|"+cb, "?", "-1", hx(err.Error()), hx(""), mname)
+						continue
+					}
+					got := map[string][]string{}
+					for _, l := range strings.Split(string(out), "\n") {
+						f := strings.SplitN(l, " ", 4)
+						if len(f) == 4 && (f[0] == "ta" || f[0] == "tb") {
+							got[f[0]+" "+f[1]] = append(got[f[0]+" "+f[1]], f[3])
+						}
+					}
+					for _, w := range writers {
+						a, _ := progFromID(w, ca)
+						b, _ := progFromID(configProbe, cb)
+						nt := "0"
+						if ca != cb {
+							nt = "1"
+						}
+						sa, stA := soloStable(a)
+						sb, stB := soloStable(b)
+						which, idx, want, g := "", -1, "", ""
+						if i := firstDiff(sa, stA, got["ta "+w]); i >= 0 {
+							which, idx, want = "A", i, sa[i]
+							if i < len(got["ta "+w]) {
+								g = got["ta "+w][i]
+							}
+						} else if i := firstDiff(sb, stB, got["tb "+w]); i >= 0 {
+							which, idx, want = "B", i, sb[i]
+							if i < len(got["tb "+w]) {
+								g = got["tb "+w][i]
+							}
+						}
+						if which == "" {
+							hlib.Emit("cpair", ca+"/"+w, cb+"/"+configProbe, mname, "same", nt)
+							continue
+						}
+						hlib.Emit("cpair", ca+"/"+w, cb+"/"+configProbe, mname, "diff", nt)
+						// name the fragment of the program whose trace changed
+						p := b
+						if which == "A" {
+							p = a
+						}
+						frag, n := "?", 0
+						for _, f := range p.frags {
+							if idx < n+len(f.stmts) {
+								frag = f.name
+								break
+							}
+							n += len(f.stmts)
+						}
+						key := fmt.Sprintf("cfg:%s|%s:%s.%s", ca, cb, which, frag)
+						hlib.Emit("witness", key, which, fmt.Sprint(idx), hx(want), hx(g), mname+" other="+w)
+					}
+				}
+			}
+		}
 	case "replay":
 		fa, fb := fragByName(os.Args[2]), fragByName(os.Args[3])
 		if fa == nil || fb == nil {
 			fmt.Fprintln(os.Stderr, "unknown fragment")
 			os.Exit(2)
 		}
-		a, b := prog{fa.name, []*fragment{fa}}, prog{fb.name, []*fragment{fb}}
+		a, b := prog{fa.name, []*fragment{fa}, ""}, prog{fb.name, []*fragment{fb}, ""}
+		if len(os.Args) >= 6 {
+			a.cfg, b.cfg = os.Args[4], os.Args[5]
+		}
 		sa, stA := soloStable(a)
 		sb, stB := soloStable(b)
-		for _, s := range schedules(rng, 2) {
-			ta, tb := interleaved(a, b, s.f)
+		scheds := schedules(rng, 2)
+		scheds = append(scheds, schedule{"A-closed-before-B", nil})
+		for _, s := range scheds {
+			var ta, tb []string
+			if s.f == nil {
+				ta, tb = sequential(a, b)
+			} else {
+				ta, tb = interleaved(a, b, s.f)
+			}
 			hlib.Emit("schedule", s.name)
 			for i := range sa {
 				hlib.Emit("  A", fmt.Sprintf("%-70q", fa.stmts[i]), "solo", sa[i], "stable", fmt.Sprint(stA[i]), "with-B", ta[i])
